@@ -18,6 +18,7 @@ def main():
             obs = vc.run()
         except Unsupported as e:
             print(f"{key}: UNSUPPORTED {e}")
+            if "-v" in sys.argv: traceback.print_exc()
             continue
         except Exception:
             print(f"{key}: CRASH"); traceback.print_exc(); continue
